@@ -454,14 +454,17 @@ func (w *World) Run() *Violation {
 		if len(group) > 1 {
 			w.Stats.TieGroups++
 		}
-		f := w.decideFault(group[0])
-		dt := time.Duration(w.S.Range(w.Cfg.MinDelayMs, w.Cfg.MaxDelayMs)) * time.Millisecond
-		if f == FStall {
-			dt = time.Duration(w.S.Pick(61, 301, 3601, 7200)) * time.Second
-		}
-		time.Sleep(dt)
-		synctest.Wait()
-		for _, c := range group {
+		for mi, c := range group {
+			// the fault decision is taken per call (a planned crash counts every write of the client)
+			f := w.decideFault(c)
+			if mi == 0 || f == FStall {
+				dt := time.Duration(w.S.Range(w.Cfg.MinDelayMs, w.Cfg.MaxDelayMs)) * time.Millisecond
+				if f == FStall {
+					dt = time.Duration(w.S.Pick(61, 301, 3601, 7200)) * time.Second
+				}
+				time.Sleep(dt)
+				synctest.Wait()
+			}
 			res := w.apply(c, f, gi, np)
 			c.wake <- res
 		}
